@@ -57,3 +57,11 @@ prop("C12",
      rule="every (exporter in prom/push/varz/graphite) x (0..3 metrics) x (0..4 label sets) (thorough 0..4 x 0..6); per case every fault position: non-UTF-8 label value, failing write, cancellation at each label set, bad metric name and duplicate label name per metric, plus the fault-free run. Non-trivial = cases with at least one metric and one label set.",
      timeout={"quick": 600, "thorough": 3000},
      assumptions=["an emitter goroutine that still has label sets to send when the closure returns is blocked forever (unbuffered channel, no other receiver)"])
+
+prop("C13",
+     gens=["Buckets"],
+     lean_targets=["MtailVerif.Props.C13"],
+     level_text="Proof over the model of Exporter.Collect (the Range closure, the per-label-set loop with skip-on-error, the HELP bookkeeping, promTypeForKind, noHyphens, GetBucketsCumByMax) and of the pinned client's legacy validity rules: the output is exactly one sample per representable label set of each non-text metric and nothing else, independent of the bookkeeping state (collect_spec, representable_exported, exported_only_representable); each sample carries the hyphen-mapped name, prog+keys labels, kind-derived type, timestamp iff enabled, datum value (sample_fields); cumulative bucket counts are non-decreasing and, for distinct bounds, end at the sum of the bucket counts, which C21 proves equal to the count. Tie: random stores scraped through the real Exporter.Write, the text parsed back with the Prometheus parser and compared sample by sample with the model; validity predicates cross-checked against the client library called directly.",
+     level_note="Trusted: Lean kernel; harness diff and text parser; the Prometheus client (registry, text encoder) and its validity rules as modelled (legacy name scheme, UTF-8 label values, duplicate label names); int->float conversion is an oracle computed by Go directly. HELP/TYPE comment lines other than the type are not compared. Precondition of the property (no two series with the same name and label set; distinct names modulo hyphens) is enforced by the generator.",
+     rule="seeded random stores: 0-6 metrics with distinct names (incl. hyphenated, invalid, non-ASCII, empty), kinds counter/gauge/timer/text/histogram, types int/float/string/buckets, 0-3 keys (incl. invalid, reserved, duplicate, `prog`), 0-5 label sets with values incl. empty, spaces, quotes, newline, backslash, non-UTF-8; ints incl. +-2^53+1 and int64 extremes; floats incl. NaN, +-Inf, -0; prog label and timestamps on/off. Non-trivial = distinct cases expecting at least one sample.",
+     assumptions=["the registry sorts families and label pairs; comparison is on sorted canonical samples"])
